@@ -4,6 +4,7 @@ package scen
 
 import (
 	"sort"
+	"time"
 
 	"zogverif/mc"
 )
@@ -22,6 +23,7 @@ type Prop struct {
 	Assumptions []string
 	Floor       int // minimal distinct_nontrivial below which the run is reported vacuous
 	Extra       func(tier string) map[string]any // extra evidence keys (computed by shard 0 after its run)
+	Custom      func(cc *CustomCtx)              // optional: a search the property drives itself (explicit-state BFS)
 	Serial      bool // items must run in one process (e.g. they mutate process-global configuration)
 }
 
@@ -38,4 +40,18 @@ func IDs() []string {
 	}
 	sort.Strings(ids)
 	return ids
+}
+
+// CustomCtx is handed to Prop.Custom.
+type CustomCtx struct {
+	Tier     string
+	Shard    int
+	NShards  int
+	Deadline time.Time
+	Stats    *mc.Stats
+	Extra    map[string]any
+}
+
+func (cc *CustomCtx) Expired() bool {
+	return !cc.Deadline.IsZero() && time.Now().After(cc.Deadline)
 }
